@@ -94,7 +94,12 @@ def corpus():
     # a child added below its parent, flushed, and deleted again in the same transaction (another one stays)
     prog2 = [['add', 0, 1, {'a': 1}], ['commit'], ['set', 0, 1, {'a': 2}], ['add', 1, 1, {'a': 0}], ['tagto', 1, 1],
              ['add', 1, 2, {'a': 0}], ['tagto', 2, 1], ['flush'], ['del', 1, 1], ['commit'], ['set', 0, 1, {'a': 3}], ['commit']]
-    return [dict(kind='H', strategy=st, prog=p_) for st in ('subquery', 'validity') for p_ in (prog, prog2)]
+    # transactions whose only change is a link / unlink between existing entities, each followed by a new version of the
+    # article: its labels have to show the link set of its transaction
+    prog3 = [['add', 0, 1, {'a': 1}], ['add', 2, 1, {'a': 1}], ['add', 2, 2, {'a': 1}], ['link', 1, 1], ['commit'],
+             ['link', 1, 2], ['commit'], ['set', 0, 1, {'a': 2}], ['commit'], ['unlink', 1, 1], ['commit'],
+             ['set', 0, 1, {'a': 3}], ['set', 2, 1, {'a': 2}], ['commit']]
+    return [dict(kind='H', strategy=st, prog=p_) for st in ('subquery', 'validity') for p_ in (prog, prog2, prog3)]
 
 
 def gen_tag_program(rng):
